@@ -150,6 +150,8 @@ pub struct Setup {
     pub preempt: bool,
     /// absolute paths removed after the standard files were created (e.g. /bin/false)
     pub remove_files: Vec<String>,
+    /// stdin is a pipe fed by a helper task writing these chunks (scheduler-interleaved)
+    pub stdin_pipe: Option<Vec<Vec<u8>>>,
 }
 
 impl Setup {
@@ -167,6 +169,7 @@ impl Setup {
             nofile: None,
             preempt: false,
             remove_files: vec![],
+            stdin_pipe: None,
         }
     }
     pub fn args(mut self, args: &[&str]) -> Setup {
@@ -354,6 +357,54 @@ pub fn run(setup: &Setup) -> RunResult {
         use yash_env::system::resource::{LimitPair, Resource, SetRlimit as _};
         let _ = system.setrlimit(Resource::NOFILE, LimitPair { soft: n, hard: n.max(1024) });
     }
+    // optional: stdin is a pipe, written chunk by chunk by a helper virtual process (pid 3)
+    let mut feeder: Option<Pin<Box<dyn Future<Output = ()>>>> = None;
+    if let Some(chunks) = &setup.stdin_pipe {
+        use yash_env::system::{Close as _, Dup as _, Pipe as _};
+        let (r, w) = system.pipe().expect("pipe");
+        system.dup2(r, Fd(0)).expect("dup2");
+        system.close(r).expect("close");
+        {
+            let mut st = state.borrow_mut();
+            let helper = yash_env::system::r#virtual::Process::fork_from(yash_env::job::Pid(1), &st.processes[&system.process_id]);
+            st.processes.insert(yash_env::job::Pid(3), helper);
+        }
+        system.close(w).expect("close");
+        let hs = VirtualSystem { state: Rc::clone(&state), process_id: yash_env::job::Pid(3) };
+        let _ = hs.close(Fd(0));
+        let chunks = chunks.clone();
+        let state3 = Rc::clone(&state);
+        // A plain task (not under run_virtual): blocking-mode pipe writes park on the pipe's own
+        // wakers, and a bare self-wake yields to the scheduler between chunks.
+        feeder = Some(Box::pin(async move {
+            use yash_env::system::Write as _;
+            'outer: for chunk in chunks {
+                let mut data = &chunk[..];
+                while !data.is_empty() {
+                    match hs.write(w, data).await {
+                        Ok(n) => data = &data[n..],
+                        Err(_) => break 'outer,
+                    }
+                }
+                let mut yielded = false;
+                std::future::poll_fn(|cx| {
+                    if yielded {
+                        Poll::Ready(())
+                    } else {
+                        yielded = true;
+                        cx.waker().wake_by_ref();
+                        Poll::Pending
+                    }
+                })
+                .await;
+            }
+            let _ = hs.close(w);
+            if let Some(p) = state3.borrow_mut().processes.get_mut(&yash_env::job::Pid(3)) {
+                p.close_fds();
+                let _ = p.set_state(ProcessState::exited(yash_env::semantics::ExitStatus(0)));
+            }
+        }));
+    }
     // stdin of a regular file must not be in append mode for reading from offset 0; the default
     // open file description is fine (offset 0, readable).
     let main_pid = system.process_id.0;
@@ -398,6 +449,9 @@ pub fn run(setup: &Setup) -> RunResult {
     set_preemption(setup.preempt);
     let mut log = SchedLog::default();
     let mut tasks: Vec<Task> = vec![Task { fut: Some(main_task), flag: Arc::new(Flag(AtomicBool::new(true))) }];
+    if let Some(f) = feeder {
+        tasks.push(Task { fut: Some(f), flag: Arc::new(Flag(AtomicBool::new(true))) });
+    }
     let mut chooser = ChooserState::new(&setup.chooser);
     let panic = crate::engine::guarded(|| {
         let mut main_done_at: Option<u64> = None;
